@@ -1,6 +1,7 @@
 import CasbinModel.Lemmas.Scan
 import CasbinModel.Props.C01
 import CasbinModel.Props.C03
+import CasbinModel.Lemmas.Batch
 /-!
 # C07 — Tenants are isolated in domain models
 
@@ -86,6 +87,178 @@ theorem domain_guard_rejects (env : Env) (first rest : Expr) (ri pi : Nat) (rd p
   have hb : (rd == pd) = false := by simp [hne]
   cases b <;>
     simp [Expr.evalBool, Expr.eval, hfirst, hr, hp, cmpVal, cmpStr, hb]
+
+/-! ### The tenant's view under management calls confined to other tenants -/
+
+theorem filter_add_outside (inD : Rule → Bool) (l : List Rule) (r : Rule) (h : inD r = false) :
+    (OrdSet.add l r).1.filter inD = l.filter inD := by
+  unfold OrdSet.add
+  split
+  · rfl
+  · simp [List.filter_append, h]
+
+theorem filter_erase_outside (inD : Rule → Bool) (l : List Rule) (r : Rule) (h : inD r = false) :
+    (l.erase r).filter inD = l.filter inD := by
+  induction l with
+  | nil => rfl
+  | cons x t ih =>
+    by_cases hx : x = r
+    · subst hx; simp [List.erase_cons_head, List.filter_cons, h]
+    · rw [List.erase_cons_tail (by simpa using hx)]
+      simp only [List.filter_cons]
+      rw [ih]
+
+theorem filter_remove_outside (inD : Rule → Bool) (l : List Rule) (r : Rule) (h : inD r = false) :
+    (OrdSet.remove l r).1.filter inD = l.filter inD := by
+  rw [OrdSet.remove_eq, erase_inst_irrel]
+  exact filter_erase_outside inD l r h
+
+theorem filter_addAll_outside (inD : Rule → Bool) (rs : List Rule) (l : List Rule) (h : ∀ r ∈ rs, inD r = false) :
+    (OrdSet.addAll l rs).filter inD = l.filter inD := by
+  induction rs generalizing l with
+  | nil => rfl
+  | cons r t ih =>
+    simp only [OrdSet.addAll]
+    rw [ih _ (fun x hx => h x (by simp [hx])), filter_add_outside inD l r (h r (by simp))]
+
+theorem filter_removeAll_outside (inD : Rule → Bool) (rs : List Rule) (l : List Rule) (h : ∀ r ∈ rs, inD r = false) :
+    (OrdSet.removeAll l rs).filter inD = l.filter inD := by
+  induction rs generalizing l with
+  | nil => rfl
+  | cons r t ih =>
+    simp only [OrdSet.removeAll]
+    rw [ih _ (fun x hx => h x (by simp [hx])), filter_remove_outside inD l r (h r (by simp))]
+
+theorem filter_filtered_outside (inD fm : Rule → Bool) (l : List Rule) (h : ∀ r, fm r = true → inD r = false) :
+    (l.filter (fun r => !fm r)).filter inD = l.filter inD := by
+  rw [List.filter_filter]
+  apply List.filter_congr
+  intro r _
+  by_cases hi : inD r = true
+  · have : fm r = false := by
+      cases hf : fm r with
+      | false => rfl
+      | true => have := h r hf; rw [hi] at this; cases this
+    simp [hi, this]
+  · have : inD r = false := by simpa using hi
+    simp [this]
+
+/-- the five management calls on permission rules -/
+inductive TOp where
+  | add (pt : String) (rule : Rule)
+  | remove (pt : String) (rule : Rule)
+  | addMany (pt : String) (rules : List Rule)
+  | removeMany (pt : String) (rules : List Rule)
+  | removeFiltered (pt : String) (idx : Nat) (vals : List String)
+
+def TOp.apply (s : Store) : TOp → Store
+  | .add pt rule => (s.addPolicy "p" pt rule).1
+  | .remove pt rule => (s.removePolicy "p" pt rule).1
+  | .addMany pt rules => (s.addPolicies "p" pt rules).1
+  | .removeMany pt rules => (s.removePolicies "p" pt rules).1
+  | .removeFiltered pt idx vals => (s.removeFiltered "p" pt idx vals).1
+
+/-- the call names no rule of the observed tenant: every rule it adds or removes lies outside, and a filter selects
+outside rules only (what a filter carrying another tenant's name in the tenant column does) -/
+def TOp.Confined (inD : Rule → Bool) : TOp → Prop
+  | .add _ rule => inD rule = false
+  | .remove _ rule => inD rule = false
+  | .addMany _ rules => ∀ r ∈ rules, inD r = false
+  | .removeMany _ rules => ∀ r ∈ rules, inD r = false
+  | .removeFiltered _ idx vals => ∀ r, filterMatch idx vals r = true → inD r = false
+
+/-- **one confined call leaves the tenant's view alone**: under every policy type, the observed tenant's rules, in
+order, are what they were — whether the call takes effect, reports no change, or names an unknown policy type -/
+theorem view_step (inD : Rule → Bool) (s : Store) (op : TOp) (h : op.Confined inD) (pt' : String) :
+    ((op.apply s).getPolicy "p" pt').filter inD = (s.getPolicy "p" pt').filter inD := by
+  cases op with
+  | add pt rule =>
+    simp only [TOp.apply]
+    rw [Store.addPolicy_getPolicy]
+    split
+    · rename_i hc; obtain ⟨_, h2, _⟩ := hc; subst h2
+      exact filter_add_outside inD _ rule h
+    · rfl
+  | remove pt rule =>
+    simp only [TOp.apply]
+    rw [Store.removePolicy_getPolicy]
+    split
+    · rename_i hc; obtain ⟨_, h2, _⟩ := hc; subst h2
+      exact filter_remove_outside inD _ rule h
+    · rfl
+  | addMany pt rules =>
+    simp only [TOp.apply]
+    unfold Store.addPolicies
+    cases hf : s.find "p" pt with
+    | none => rfl
+    | some d =>
+      simp only
+      split
+      · rfl
+      · rw [Store.getPolicy_update' s "p" pt "p" pt' (fun pol => OrdSet.addAll pol rules)]
+        split
+        · rename_i hc; obtain ⟨_, h2, _⟩ := hc; subst h2
+          exact filter_addAll_outside inD rules _ h
+        · rfl
+  | removeMany pt rules =>
+    simp only [TOp.apply]
+    unfold Store.removePolicies
+    cases hf : s.find "p" pt with
+    | none => rfl
+    | some d =>
+      simp only
+      split
+      · rfl
+      · rw [Store.getPolicy_update' s "p" pt "p" pt' (fun pol => OrdSet.removeAll pol rules)]
+        split
+        · rename_i hc; obtain ⟨_, h2, _⟩ := hc; subst h2
+          exact filter_removeAll_outside inD rules _ h
+        · rfl
+  | removeFiltered pt idx vals =>
+    simp only [TOp.apply]
+    unfold Store.removeFiltered
+    split
+    · rfl
+    · cases hf : s.find "p" pt with
+      | none => rfl
+      | some d =>
+        simp only
+        split
+        · rfl
+        · rw [Store.getPolicy_update' s "p" pt "p" pt' (fun pol => pol.filter (fun r => !filterMatch idx vals r))]
+          split
+          · rename_i hc; obtain ⟨_, h2, _⟩ := hc; subst h2
+            exact filter_filtered_outside inD (filterMatch idx vals) _ h
+          · rfl
+
+/-- **… and so does every history of confined calls** — the hypothesis `hview` of `decisions_depend_on_view` is an
+invariant of whatever the other tenants do -/
+theorem view_history (inD : Rule → Bool) (ops : List TOp) (s : Store) (h : ∀ op ∈ ops, op.Confined inD) (pt' : String) :
+    ((ops.foldl TOp.apply s).getPolicy "p" pt').filter inD = (s.getPolicy "p" pt').filter inD := by
+  induction ops generalizing s with
+  | nil => rfl
+  | cons op rest ih =>
+    simp only [List.foldl_cons]
+    rw [ih _ (fun o ho => h o (by simp [ho])), view_step inD s op (h op (by simp))]
+
+/-- a filter that names another tenant in the tenant column selects no rule of the observed tenant -/
+theorem tenant_filter_confined (d d' : String) (hd : d' ≠ d) (col idx : Nat) (vals : List String) (i : Nat)
+    (hi : vals[i]? = some d') (hne : d' ≠ "") (hcol : idx + i = col) :
+    ∀ r : Rule, filterMatch idx vals r = true → (fun r : Rule => decide (r[col]? = some d)) r = false := by
+  intro r hfm
+  unfold filterMatch at hfm
+  rw [List.all_eq_true] at hfm
+  have hmem : (d', i) ∈ vals.zipIdx := by
+    rw [List.mem_zipIdx_iff_getElem?]; simpa using hi
+  have := hfm (d', i) hmem
+  simp only [Bool.or_eq_true, decide_eq_true_eq] at this
+  rcases this with h | h
+  · exact absurd h hne
+  · rw [hcol] at h
+    simp only [decide_eq_false_iff_not]
+    rw [h]
+    intro heq
+    exact hd (Option.some.inj heq)
 
 /-! ### Non-vacuity -/
 def cfgA : EvalCfg :=
